@@ -73,6 +73,8 @@ type Case struct {
 	Titled   []int         `json:"titled"`   // nodes whose descriptor carries org.opencontainers.image.title inside the manifests that list them
 	CbSet    string        `json:"cbset"`    // which of PreCopy PostCopy OnCopySkipped OnMounted MountFrom are set, 5 x 0|1 ("" = all set)
 	FindSucc bool          `json:"findsucc"` // FindSuccessors set (to a function calling content.Successors) instead of nil
+	MountAlways bool       `json:"mountalways"` // every candidate repository has the blob (Mount always succeeds)
+	PreTag   int           `json:"pretag"`   // -1, or a pre-populated node the destination reference already points to before the call
 	Slow     bool          `json:"slow"`     // storage latencies of 0.2-2 ms (contention on the limiter)
 	Fast     bool          `json:"fast"`     // latencies are yields only (no sleeps): the small-scope enumeration
 	Sched    bool          `json:"sched"`    // run under testing/synctest with a PRNG-controlled scheduler
@@ -106,6 +108,8 @@ type rec struct {
 	bytes  [][]byte // generator's bytes per node (what a successful mount makes available)
 	fast   bool
 	slow   bool
+	seed   uint64
+	always bool // every Mount finds the blob in the candidate repository
 	sched  *sched   // controlled schedules: every delay point parks until the scheduler releases it
 }
 
@@ -381,9 +385,8 @@ func (d *dstW) mount(ctx context.Context, t ocispec.Descriptor, fromRepo string,
 		}
 		return err
 	}
-	d.r.lmu.Lock()
-	hit := d.r.lat.Intn(3) == 0
-	d.r.lmu.Unlock()
+	// the outcome is a function of (case seed, node, candidate), not of the order in which goroutines draw
+	hit := d.r.always || common.NewRand(d.r.seed^uint64(n+1)*0x9E3779B1^uint64(len(fromRepo)+int(fromRepo[len(fromRepo)-1]))*0x85EBCA77).Intn(3) == 0
 	if hit && n >= 0 {
 		if err := d.under.Push(ctx, t, bytes.NewReader(d.r.bytes[n])); err != nil {
 			d.r.ev(fmt.Sprintf("ME.%d.e", n), 0, -1)
@@ -451,6 +454,7 @@ type Result struct {
 	TagNode  int    // node the effective destination reference resolves to (-1 none, -2 unknown descriptor)
 	SrcMax   int
 	DstMax   int
+	ExtraTag bool  // the source reference also resolves in the destination although a different destination reference was given
 	Pro      []int // nodes read from the source in the prologue
 	Keff     int
 	Root2    int // the root after MapRoot / platform selection (ground truth), -1 if the prologue must fail
@@ -635,6 +639,13 @@ func Execute(c *Case) *Result {
 		res.SetupErr = err
 		return res
 	}
+	if c.PreTag >= 0 && (c.Mode == "t" || c.Mode == "r" || c.Mode == "X") {
+		// the destination reference exists already and points elsewhere: Copy must move it
+		if err := dst.Tag(ctx, g.Nodes[c.PreTag].Desc, c.EffRef()); err != nil {
+			res.SetupErr = fmt.Errorf("pre-tag: %w", err)
+			return res
+		}
+	}
 	if c.Dst == "ocire" {
 		closeDst()
 		dst, closeDst, err = newStore("oci", ddir)
@@ -663,7 +674,7 @@ func Execute(c *Case) *Result {
 			return nil
 		}
 	}
-	r := &rec{idx: map[dkeyT]int{}, lat: common.NewRand(c.Seed), fast: c.Fast, slow: c.Slow}
+	r := &rec{idx: map[dkeyT]int{}, lat: common.NewRand(c.Seed), fast: c.Fast, slow: c.Slow, seed: c.Seed, always: c.MountAlways}
 	for _, n := range g.Nodes {
 		if _, dup := r.idx[keyOf(n.Desc)]; dup {
 			res.SetupErr = fmt.Errorf("generator produced two nodes with the same descriptor (node %d)", n.ID)
@@ -713,9 +724,10 @@ func Execute(c *Case) *Result {
 			if !c.Mount {
 				return nil, nil
 			}
-			r.lmu.Lock()
-			k := r.lat.Intn(4)
-			r.lmu.Unlock()
+			k := common.NewRand(c.Seed ^ uint64(n+1)*0xC2B2AE35).Intn(4) // a function of (case seed, node)
+			if c.MountAlways && k == 0 {
+				k = 1
+			}
 			return []string{"repo/a", "repo/b", "repo/c"}[:min(k, 3)], nil
 		}
 	}
@@ -829,6 +841,11 @@ func Execute(c *Case) *Result {
 		rc.Close()
 		res.BytesOK[n.ID] = err == nil && bytes.Equal(b, n.Bytes)
 	}
+	if c.Mode != "g" && c.Mode != "x" && c.DstRef != "" && c.DstRef != c.SrcRef {
+		if _, err := dst.Resolve(ctx, c.SrcRef); err == nil {
+			res.ExtraTag = true
+		}
+	}
 	if c.Mode != "g" && c.Mode != "x" {
 		d, err := dst.Resolve(ctx, c.EffRef())
 		if err == nil {
@@ -914,8 +931,12 @@ func ModelInput(res *Result) string {
 		mode += "m"
 	}
 	mode += "/" + c.cbBits()
-	return fmt.Sprintf("%d %d %s %s %s %s %s %s %srp=%s:%d:%d:%d", len(g.Nodes), c.K, mode, rootField, ints(cached0),
-		strings.Join(nodes, ";"), ints(d0), tr, platformField(c, g), c.Stream, c.GenSeed, b2i(c.Thorough), c.Seed)
+	pre := ""
+	if c.PreTag >= 0 && (c.Mode == "t" || c.Mode == "r") {
+		pre = fmt.Sprintf("pt=%d ", c.PreTag)
+	}
+	return fmt.Sprintf("%d %d %s %s %s %s %s %s %s%srp=%s:%d:%d:%d", len(g.Nodes), c.K, mode, rootField, ints(cached0),
+		strings.Join(nodes, ";"), ints(d0), tr, platformField(c, g), pre, c.Stream, c.GenSeed, b2i(c.Thorough), c.Seed)
 }
 
 var archID = map[string]int{"": 0, "amd64": 1, "arm64": 2}
